@@ -62,9 +62,12 @@ theorem tcp_extract_frame_total (buf : Bytes) (n : Nat) (h : n + 7 < usizeLimit)
 theorem tcp_extract_frame_panic_iff (buf : Bytes) (n : Nat) :
     Tcp.extractFrame buf n = .panic ↔ buf ≠ [] ∧ usizeLimit ≤ n + 7 := Tcp.extractFrame_eq_panic_iff buf n
 
-/-- the hypotheses are satisfied by every realistic call: e.g. a 6-byte garbage buffer, `pdu_len` 5 -/
+/-- the hypotheses are satisfied by every realistic call: e.g. a 6-byte garbage buffer, `pdu_len` 5
+    (the TCP extractor rejects the visible protocol identifier 0x0304 at once; with a consistent
+    visible header it waits) -/
 example : (5 + 3 < usizeLimit) ∧ Rtu.extractFrame [1, 2, 3, 4, 5, 6] 5 = .ok none ∧
-    Tcp.extractFrame [1, 2, 3, 4, 5, 6] 5 = .ok none := by decide +kernel
+    Tcp.extractFrame [1, 2, 3, 4, 5, 6] 5 = .err (.protocolNotModbus 0x0304) ∧
+    Tcp.extractFrame [1, 2, 0, 0, 0, 6] 5 = .ok none := by decide +kernel
 
 /-- … and the excluded region is a real overflow of the crate's checked addition -/
 example : Rtu.extractFrame [1] (usizeLimit - 1) = .panic ∧ Tcp.extractFrame [1] (usizeLimit - 1) = .panic := by
